@@ -341,6 +341,54 @@ HARNESS(h_cloud_public) {
     symx_witness();
 }
 
+/* ================================================================== the EXPORTed FILE* / std::stream API is a faithful wrapper
+   of the generic-stream level used above: same bytes, in any sequence of calls (no state carried from one export to the next),
+   and the exported importers give the same objects */
+HARNESS(h_export_api) {
+    KeySet w; mk_keyset(w, true);
+    IoBuf *ref_s = io_new(), *ref_c = io_new(), *ref_p = io_new(), *ref_k = io_new();
+    write_tfheGateBootstrappingSecretKeySet(io_writer(ref_s), w.sk, true);
+    write_tfheGateBootstrappingCloudKeySet(io_writer(ref_c), &w.sk->cloud, true);
+    write_tfheGateBootstrappingParameters(io_writer(ref_p), w.ps);
+    write_lweKey(io_writer(ref_k), w.lk, true);
+    IoBuf *s = io_new(), *c = io_new(), *p = io_new(), *k = io_new(), *c2 = io_new();
+    /* the order matters: secret key set first, then the cloud key set, then smaller objects (the tutorial flow) */
+#if CXX
+    export_tfheGateBootstrappingSecretKeySet_toStream(io_ostream(s), w.sk);
+    export_tfheGateBootstrappingCloudKeySet_toStream(io_ostream(c), &w.sk->cloud);
+    export_tfheGateBootstrappingParameterSet_toStream(io_ostream(p), w.ps);
+    export_lweKey_toStream(io_ostream(k), w.lk);
+    export_tfheGateBootstrappingCloudKeySet_toStream(io_ostream(c2), &w.sk->cloud);
+#else
+    export_tfheGateBootstrappingSecretKeySet_toFile(io_file(s), w.sk);
+    export_tfheGateBootstrappingCloudKeySet_toFile(io_file(c), &w.sk->cloud);
+    export_tfheGateBootstrappingParameterSet_toFile(io_file(p), w.ps);
+    export_lweKey_toFile(io_file(k), w.lk);
+    export_tfheGateBootstrappingCloudKeySet_toFile(io_file(c2), &w.sk->cloud);
+#endif
+    CHECK(io_equal(s, ref_s), "C05/C17 exported secret key set = generic-stream bytes");
+    CHECK(io_equal(c, ref_c) ^ (CANARY != 0), "C17 cloud key set exported after the secret key set has exactly the cloud bytes (nothing left over from the previous export)");
+    CHECK(io_equal(p, ref_p) && io_equal(k, ref_k), "C05 exported parameter set / LWE key = generic-stream bytes");
+    CHECK(io_equal(c2, ref_c), "C17 a second cloud export is byte-identical to the first");
+    io_open_read(c, CXX);
+#if CXX
+    TFheGateBootstrappingCloudKeySet *y = new_tfheGateBootstrappingCloudKeySet_fromStream(io_istream(c));
+#else
+    TFheGateBootstrappingCloudKeySet *y = new_tfheGateBootstrappingCloudKeySet_fromFile(io_file(c));
+#endif
+    CHECK(eq_bk(w.bk, y->bk) && !io_failed(c) && io_consumed(c) == io_size(c), "C05 the exported importer reads the cloud key set back");
+    io_open_read(k, CXX);
+#if CXX
+    LweKey *k2 = new_lweKey_fromStream(io_istream(k));
+#else
+    LweKey *k2 = new_lweKey_fromFile(io_file(k));
+#endif
+    bool ok = eq_lweparams(k2->params, w.lp);
+    for (int i = 0; i < PLN; i++) ok = ok && k2->key[i] == w.lk->key[i];
+    CHECK(ok, "C05 the exported importer reads the LWE key back");
+    symx_witness();
+}
+
 /* ================================================================== C18: a proper prefix is never accepted silently */
 #define AFTER_IMPORT(b) CHECK(CXX && io_failed(b), "C18 import of a truncated / mistyped stream returned normally with a clean stream (it must terminate or leave the C++ stream failed)")
 
